@@ -20,8 +20,6 @@ Definition geo_pawn_double (c : color) (s : square) : bb :=
 Definition geo_pawn_cap (c : color) (s : square) : bb := of_list (steps s [(fwd c, 1%Z); (fwd c, (-1)%Z)]).
 
 (* squares strictly between a and b when they share a rank, file or diagonal *)
-Fixpoint prefix_before (t : square) (l : list square) : option (list square) :=
-  match l with [] => None | u :: r => if u =? t then Some [] else option_map (cons u) (prefix_before t r) end.
 Definition geo_between_list (a b : square) : option (list square) :=
   if a =? b then Some [] else
   fold_left (fun acc d => match acc with Some x => Some x | None => prefix_before b (line a d) end) dirs8 None.
